@@ -105,7 +105,7 @@ func (c12) Plan(tier string, seed int64) []core.Scenario {
 				out = append(out, core.Sc("dynamic").WithN("fmt", f).WithN("alias", a))
 			}
 		}
-		for _, tr := range []string{"http", "ws"} {
+		for _, tr := range []string{"http", "ws", "custom"} {
 			out = append(out, core.Sc("clients").WithN("fmt", f).WithS("transport", tr))
 		}
 	}
@@ -371,6 +371,13 @@ func (c12) clients(sc core.Scenario, r *core.R) {
 	ts := httptest.NewServer(rpc)
 	defer ts.Close()
 	addr := tr + "://" + ts.Listener.Addr().String()
+	// custom transport: the client's requests are handed to the same server in-process
+	newClient := func(ns string, outs []interface{}, opts ...jsonrpc.Option) (jsonrpc.ClientCloser, error) {
+		if tr == "custom" {
+			return jsonrpc.NewCustomClient(ns, outs, customDo(rpc), opts...)
+		}
+		return jsonrpc.NewMergeClient(context.Background(), addr, ns, outs, nil, opts...)
+	}
 	check := func(ns, inst, m string, f func() (string, error)) {
 		before := h.snap()
 		res, err := f()
@@ -386,7 +393,7 @@ func (c12) clients(sc core.Scenario, r *core.R) {
 	}
 	for _, nsCase := range []struct{ ns, inst string }{{"A", "a"}, {"", "e"}} {
 		var ca cliA
-		closer, err := jsonrpc.NewMergeClient(context.Background(), addr, nsCase.ns, []interface{}{&ca}, nil, jsonrpc.WithMethodNameFormatter(fm.f))
+		closer, err := newClient(nsCase.ns, []interface{}{&ca}, jsonrpc.WithMethodNameFormatter(fm.f))
 		if err != nil {
 			r.Inconclusive("client: %v", err)
 			return
@@ -397,7 +404,7 @@ func (c12) clients(sc core.Scenario, r *core.R) {
 		closer()
 	}
 	var cb cliB
-	closer, err := jsonrpc.NewMergeClient(context.Background(), addr, "B", []interface{}{&cb}, nil, jsonrpc.WithMethodNameFormatter(fm.f))
+	closer, err := newClient("B", []interface{}{&cb}, jsonrpc.WithMethodNameFormatter(fm.f))
 	if err != nil {
 		r.Inconclusive("client: %v", err)
 		return
@@ -413,7 +420,7 @@ func (c12) clients(sc core.Scenario, r *core.R) {
 		{Name: "Y", Type: reflect.TypeOf(cb.M), Tag: reflect.StructTag(fmt.Sprintf(`rpc_method:%q`, fm.ref("A", "N")))},
 	})
 	tv := reflect.New(tagT)
-	closer, err = jsonrpc.NewMergeClient(context.Background(), addr, "Whatever", []interface{}{tv.Interface()}, nil)
+	closer, err = newClient("Whatever", []interface{}{tv.Interface()})
 	if err != nil {
 		r.Inconclusive("client: %v", err)
 		return
